@@ -39,12 +39,12 @@ def rejection_oracle(chk, res, dres):
 def run(tier, seed, replay):
     chk = common.Check("C07", tier, seed)
     st = common.check_proofs(chk, "C07", extra_dirs=("Fmt", "Gen"))
-    n = 1600 if tier == "quick" else 16000
+    n = 4000 if tier == "quick" else 24000
     res, dres = C.decision_tie(chk, n, n // 3, focus="enum")
     rejection_oracle(chk, res, dres)
 
     rng = chk.rng
-    ncase = 600 if tier == "quick" else 5000
+    ncase = 1400 if tier == "quick" else 7000
     cases, derive_of, enum_of = [], {}, {}
     must_fail = []
     for k in range(ncase):
